@@ -8,6 +8,7 @@ mod props;
 mod reagg;
 mod scen;
 mod sim;
+mod synth;
 mod truth;
 mod wire;
 mod world;
@@ -59,9 +60,14 @@ fn main() {
     framework::install_panic_hook();
     let code = match prop.as_str() {
         "C01" => props::c01::run(tier, seed, only.and_then(|s| s.parse().ok())),
+        "C02" => props::c02::run(tier, seed, only.and_then(|s| s.parse().ok())),
         "C03" => props::c03::run(tier, seed, only),
         "C08" => props::c08::run(tier, seed, only.and_then(|s| s.parse().ok())),
         "C09" => props::c09::run(tier, seed, only),
+        "C10" => props::c10::run(tier, seed, only),
+        "C11" => props::c11::run(tier, seed, only.and_then(|s| s.parse().ok())),
+        "C19" => props::c19::run(tier, seed, only.and_then(|s| s.parse().ok())),
+        "C07" => props::c07::run(tier, seed, only),
         "C06" => props::c06::run(tier, seed, only.and_then(|s| s.parse().ok())),
         _ => {
             eprintln!("unknown property {prop}");
